@@ -60,6 +60,15 @@ func (e *Exec) cqSnap(sn *Snap, base *emitted, baseVer int) (string, *emitted) {
 	em := &emitted{sn: sn, labels: map[uint64]string{}}
 	zero := make([]uint64, g.NVox())
 	bSV, bBM := zero, zero
+	hg := g.Half()
+	bLo, bLoM := make([]uint64, hg.NVox()), make([]uint64, hg.NVox())
+	if base != nil && g.Lo {
+		bLo, bLoM = base.sn.LoSV, base.sn.LoMapped
+	}
+	lo, lom := "[]", "[]"
+	if g.Lo {
+		lo, lom = cqBoxes(hg.DiffBoxes(bLo, sn.LoSV)), cqBoxes(hg.DiffBoxes(bLoM, sn.LoMapped))
+	}
 	var bPresent [][3]int
 	var bMappings, bList [][2]uint64
 	var bPts []PtObs
@@ -89,7 +98,7 @@ func (e *Exec) cqSnap(sn *Snap, base *emitted, baseVer int) (string, *emitted) {
 	for i, p := range sn.Pts {
 		pts[i] = fmt.Sprintf("(%s,(%d,%d,%d,%d))", cq3(p.P), p.One, p.OneSV, p.Many, p.ManySV)
 	}
-	s := fmt.Sprintf("(S %d %s %d %s %s %s %s %s [%s] %s %s %s %s)",
+	s := fmt.Sprintf("(S %d %s %d %s %s %s %s %s [%s] %s %s %s %s %s %s)",
 		sn.Ver, baseStr, len(sn.ReadErr),
 		cqDelta(base != nil && fmt.Sprint(bPresent) == fmt.Sprint(sn.Present), cqNs(pres)),
 		cqBoxes(g.DiffBoxes(bSV, sn.SV)), cqBoxes(g.DiffBoxes(sn.SV, sn.RawSV)),
@@ -98,7 +107,7 @@ func (e *Exec) cqSnap(sn *Snap, base *emitted, baseVer int) (string, *emitted) {
 		cqDelta(base != nil && fmt.Sprint(bMappings) == fmt.Sprint(sn.Mappings), cqPairs(sn.Mappings)),
 		cqTri(sn.MaxLabel),
 		cqDelta(base != nil && fmt.Sprint(bList) == fmt.Sprint(sn.ListLabels), cqPairs(sn.ListLabels)),
-		cqDelta(base != nil && fmt.Sprint(bPts) == fmt.Sprint(sn.Pts), "["+strings.Join(pts, ";")+"]"))
+		cqDelta(base != nil && fmt.Sprint(bPts) == fmt.Sprint(sn.Pts), "["+strings.Join(pts, ";")+"]"), lo, lom)
 	return s, em
 }
 
@@ -136,6 +145,8 @@ func (e *Exec) cqReq(op Op) string {
 		return fmt.Sprintf("(RCommit %d)", op.V)
 	case "newversion", "branch":
 		return fmt.Sprintf("(RNewVersion %d %d)", op.V, op.Child)
+	case "dagmerge":
+		return fmt.Sprintf("(RDagMerge %d %s %d)", op.V, cqNs(op.Labels), op.Child)
 	}
 	return "RObserve"
 }
@@ -208,8 +219,18 @@ func (e *Exec) cqHistory() string {
 		steps = append(steps, fmt.Sprintf("(T %s %s %s %s [%s])", e.cqReq(st.Op), lib.CoqBool(st.Resp.OK), cqNs(ret),
 			lib.CoqBool(st.Op.Bad != ""), strings.Join(snaps, ";\n    ")))
 	}
-	return fmt.Sprintf("(H (G %d %s) %s [\n   %s])", g.BS, cq3(g.Dim), cqBoxes(e.h.Layout), strings.Join(steps, ";\n   "))
+	return fmt.Sprintf("(H (G %d %s %s) %s [\n   %s])", g.BS, cq3(g.Dim), lib.CoqBool(g.Lo), cqBoxes(e.h.Layout), strings.Join(steps, ";\n   "))
 }
+
+// v0: body 30 (block-spanning) and body 7; v1 = branch of v0, merges 7 into 30; v2 = newversion of
+// v0, nothing done; v3 = repo merge with first parent v2 and second parent v1; observed at v3.
+const dagmergeCase = `{"kind": "dagmerge", "g": {"bs": 16, "org": [0, 0, 0], "dim": [2, 1, 1]},
+ "layout": [{"p": [0, 0, 0], "d": [20, 8, 8], "l": 30}, {"p": [2, 2, 2], "d": [3, 3, 3], "l": 7}],
+ "ops": [{"k": "ingest", "v": 0, "via": "blocks", "blocks": [[0, 0, 0], [1, 0, 0]]},
+         {"k": "commit", "v": 0}, {"k": "branch", "v": 0, "child": 1}, {"k": "newversion", "v": 0, "child": 2},
+         {"k": "merge", "v": 1, "target": 30, "labels": [7]}, {"k": "commit", "v": 1}, {"k": "commit", "v": 2},
+         {"k": "dagmerge", "v": 2, "labels": [1], "child": 3}, {"k": "observe", "v": 3}],
+ "pts": [[1, 1, 1], [3, 3, 3]]}`
 
 const header = `From DV Require Import Base.Prelude Model.LabelMapRun.
 Local Open Scope N_scope.
@@ -249,6 +270,8 @@ func emitRun(o lib.Opts) {
 			}
 		}
 		run.Count(fmt.Sprintf("versions:%d", len(e.uuids)))
+		run.Count(fmt.Sprintf("index-cache:%v", h.Cache))
+		run.Count(fmt.Sprintf("scale-1-observed:%v", h.G.Lo))
 		run.Count(fmt.Sprintf("blocks:%d", h.G.NBlocks()))
 		sort.Strings(kinds)
 		js, _ := json.Marshal(h)
@@ -277,10 +300,27 @@ func emitRun(o lib.Opts) {
 	if o.N > 0 {
 		n = o.N
 	}
+	// fixed corpus: the canonical history of finding C08-dagmerge (a conflict-free repo merge whose
+	// non-first parent merged a body), judged by the dedicated class 12
+	{
+		var h History
+		if err := json.Unmarshal([]byte(dagmergeCase), &h); err != nil {
+			fmt.Fprintln(os.Stderr, "corpus:", err)
+			os.Exit(2)
+		}
+		e, err := newExec(&h)
+		if err != nil {
+			fmt.Fprintln(os.Stderr, "setup:", err)
+			os.Exit(2)
+		}
+		e.run()
+		addHistory(&h, e)
+	}
 	master := lib.NewRand(o.Seed)
 	for k := 0; k < n; k++ {
 		rng := lib.NewRand(master.U64())
 		h := genHistory(rng, k, o.Thorough())
+		h.Cache = k >= n/2 // second half of the run: label-index cache on
 		e, err := newExec(h)
 		if err != nil {
 			fmt.Fprintln(os.Stderr, "setup:", err)
@@ -290,7 +330,7 @@ func emitRun(o lib.Opts) {
 		addHistory(h, e)
 	}
 	run.Finish("history",
-		"random proofreading histories on 16^3-block labelmap instances (2-8 blocks; background, multi-block and sub-block supervoxels, labels up to 2^63): ingest by POST blocks / POST raw / ingest-supervoxels+indices+mappings, then about ten of merge, cleave, split-supervoxel, renumber, mutating raw write, body split, a few requests violating a contract on purpose, interleaved with commit / newversion / branch; every read endpoint of the property observed after each request at the touched version and one more; a history is distinct by its operation multiset, geometry and content hash",
+		"one fixed history of kind dagmerge (conflict-free repo merge whose non-first parent merged a body, read at the merge child: finding C08-dagmerge, class 12); random proofreading histories on 16^3-block labelmap instances (2-8 blocks; background, multi-block and sub-block supervoxels, labels up to 2^63): ingest by POST blocks / POST raw / ingest-supervoxels+indices+mappings, then about ten of merge, cleave, split-supervoxel, renumber, mutating raw write, body split, a few requests violating a contract on purpose, interleaved with commit / newversion / branch; every read endpoint of the property observed after each request at the touched version and one more; a history is distinct by its operation multiset, geometry and content hash",
 		tail)
 }
 
